@@ -2649,3 +2649,448 @@ func compactionOutcomeGroup(c *Ctx, rule string) {
 		}
 	}
 }
+
+// watermarkSlotExclusionGroup (C05, C32, C37): a Begin/Done updates a slot of the window it
+// picked, a rebuild copies the counts of the old window into a new one and publishes it.  When
+// the two can overlap, an update that lands on the old window after its slot was copied is lost:
+// a lost Done leaves the index pending for ever (every later read timestamp waits for it), a
+// lost Begin lets the watermark pass a commit that is still being applied.  The structural
+// necessary condition: some lock L of the WaterMark is held (shared suffices) from the point
+// where the window is picked to the slot update, and held exclusively where the rebuilt window
+// is copied and published.
+func watermarkSlotExclusionGroup(c *Ctx, rule string) {
+	c.Rule(rule, "every (*atomic.Int32).Add on a slot of a utils.watermarkWindow happens with one lock of the WaterMark held (shared or exclusive) both where the window was obtained and at the update, and WaterMark.rebuildWindowLocked reads the old slots and publishes the rebuilt window (window.Store) with that same lock held exclusively (directly or by every caller): slot updates and window rebuilds cannot overlap")
+	isSlotAddr := func(v ssa.Value) (ssa.Value, bool) {
+		ia, ok := Unwrap(v).(*ssa.IndexAddr)
+		if !ok {
+			return nil, false
+		}
+		if !isFieldLoad(Unwrap(ia.X), "utils.watermarkWindow", "slots") {
+			return nil, false
+		}
+		// the window the slots belong to
+		if u, ok := Unwrap(ia.X).(*ssa.UnOp); ok {
+			if fa, ok := u.X.(*ssa.FieldAddr); ok {
+				return Unwrap(fa.X), true
+			}
+		}
+		return nil, true
+	}
+	type site struct {
+		fn  *ssa.Function
+		in  ssa.Instruction
+		win ssa.Value
+	}
+	var adds []site
+	for _, f := range c.P.ModFuncs {
+		if FuncPkgPath(f) != Module+"/utils" {
+			continue
+		}
+		for _, a := range Calls(f, false, Named("(*sync/atomic.Int32).Add")) {
+			if len(a.Common().Args) == 0 {
+				continue
+			}
+			if win, ok := isSlotAddr(a.Common().Args[0]); ok {
+				c.Touch(f)
+				adds = append(adds, site{f, a.(ssa.Instruction), win})
+			}
+		}
+	}
+	c.Floor(rule, len(adds), 1, "slot updates (atomic Add on watermarkWindow.slots)")
+	// the lock: held at every update
+	var cand map[string]bool
+	for _, a := range adds {
+		held := map[string]bool{}
+		for _, h := range ComputeLockSets(a.fn).HeldAt(a.in) {
+			held[strings.TrimSuffix(h, "(r)")] = true
+		}
+		if cand == nil {
+			cand = held
+			continue
+		}
+		for k := range cand {
+			if !held[k] {
+				delete(cand, k)
+			}
+		}
+	}
+	lock := ""
+	for k := range cand {
+		if strings.Contains(k, "WaterMark.") && (lock == "" || k < lock) {
+			lock = k
+		}
+	}
+	for i, a := range adds {
+		k := key(a.fn, fmt.Sprintf("slot-update[%d]@window-lock", i+1))
+		if lock == "" {
+			c.Fail(rule, k, a.in.Pos(), 2, "a window slot is updated without any lock of the WaterMark held: the window was picked earlier and may have been replaced by a rebuild whose copy no longer sees this update (a lost Done blocks every later reader in WaitForMark, a lost Begin lets the watermark pass a commit that is still being applied)")
+			continue
+		}
+		ls := ComputeLockSets(a.fn)
+		pickedUnder := true
+		if def, ok := a.win.(ssa.Instruction); ok && a.win != nil {
+			pickedUnder = ls.Holds(def, lock, true)
+		}
+		c.Decide(pickedUnder, rule, k, a.in.Pos(), 2, "the window is picked and its slot updated under "+lock, "the slot is updated under "+lock+" but the window was picked before the lock was taken: it may already have been replaced")
+	}
+	fn := c.Fn("utils", "WaterMark.rebuildWindowLocked")
+	if fn == nil || lock == "" {
+		return
+	}
+	ls := ComputeLockSets(fn)
+	var pts []ssa.Instruction
+	pts = append(pts, instrs(Calls(fn, false, Named("(*sync/atomic.Value).Store")))...)
+	for _, l := range Calls(fn, false, Named("(*sync/atomic.Int32).Load")) {
+		if len(l.Common().Args) > 0 {
+			if _, ok := isSlotAddr(l.Common().Args[0]); ok {
+				pts = append(pts, l.(ssa.Instruction))
+			}
+		}
+	}
+	c.Floor(rule, len(pts), 2, "old-slot reads and window publication in rebuildWindowLocked")
+	callersHold := false
+	if ok, n := heldAtEveryCall(c, fn, lock, 3); ok && n > 0 {
+		callersHold = true
+	}
+	for i, p := range pts {
+		k := key(fn, fmt.Sprintf("rebuild-step[%d]@%s(exclusive)", i+1, lock))
+		c.Decide(callersHold || ls.Holds(p, lock, false), rule, k, p.Pos(), 2, "the copy and the publication exclude slot updates", "the window rebuild reads the old slots / publishes the new window without holding "+lock+" exclusively: a slot update can land on the old window after it was copied")
+	}
+}
+
+// compactionReservationGroup (C37): compact.State.CompareAndAdd reserves the key ranges of a
+// compaction, State.Delete releases them when it is over.  A range that is reserved and never
+// released keeps that part of the level "under compaction" for ever: no L0->Lbase compaction is
+// scheduled again, the L0 write throttle is never lifted and every write waits in sendToWriteCh.
+// Every ingest-buffer compaction is a same-level entry (ThisLevel == NextLevel) with two different
+// ranges, so the release has to cover that case as well.  Decided by sign evaluation of both
+// functions over (levels equal?, ranges equal?): Delete reaches the release of NextRange exactly
+// when CompareAndAdd reaches its reservation (equal level and equal range: either answer is fine,
+// the release of ThisRange may drop both copies).
+func compactionReservationGroup(c *Ctx, rule string) {
+	c.Rule(rule, "lsm/compact.State.Delete calls levelState.remove(entry.NextRange) in every (ThisLevel ? NextLevel) x (NextRange equals ThisRange ?) case with a non-empty NextRange in which State.CompareAndAdd stores entry.NextRange into a level's reserved ranges, and in no case in which it does not (a missing reservation ends in log.Fatal); the case `same level and same range` is free")
+	del := c.Fn("lsm/compact", "State.Delete")
+	add := c.Fn("lsm/compact", "State.CompareAndAdd")
+	if del == nil || add == nil {
+		return
+	}
+	isNextRange := func(v ssa.Value) bool { return isFieldLoad(v, "lsm/compact.StateEntry", "NextRange") }
+	isThisRange := func(v ssa.Value) bool { return isFieldLoad(v, "lsm/compact.StateEntry", "ThisRange") }
+	role := func(v ssa.Value) string {
+		switch {
+		case isFieldLoad(v, "lsm/compact.StateEntry", "ThisLevel"):
+			return "this"
+		case isFieldLoad(v, "lsm/compact.StateEntry", "NextLevel"):
+			return "next"
+		}
+		return ""
+	}
+	var removes []ssa.Instruction
+	for _, r := range Calls(del, false, Named("lsm/compact.(*levelState).remove")) {
+		if a := r.Common().Args; len(a) == 2 && isNextRange(a[1]) {
+			removes = append(removes, r.(ssa.Instruction))
+		}
+	}
+	var reserves []ssa.Instruction
+	AllInstrs(add, false, func(in ssa.Instruction) {
+		if st, ok := in.(*ssa.Store); ok && isNextRange(st.Val) {
+			reserves = append(reserves, in)
+		}
+	})
+	c.Floor(rule, len(reserves), 1, "reservations of entry.NextRange in CompareAndAdd")
+	if len(removes) == 0 {
+		c.Fail(rule, key(del, "releases:NextRange"), del.Pos(), 1, "State.Delete never releases entry.NextRange")
+		return
+	}
+	n := 0
+	var bad []string
+	for _, lvlEq := range []bool{true, false} {
+		for _, rngEq := range []bool{true, false} {
+			if lvlEq && rngEq {
+				continue
+			}
+			signs := map[string]int{}
+			SetSign(signs, "this", "next", map[bool]int{true: 0, false: -1}[lvlEq])
+			boolHook := func(v ssa.Value) Tri {
+				call, ok := Unwrap(v).(*ssa.Call)
+				if !ok {
+					return Unknown
+				}
+				args := call.Call.Args
+				switch {
+				case Named("lsm/compact.(KeyRange).Equals")(call.Common()) && len(args) == 2 &&
+					(isNextRange(args[0]) && isThisRange(args[1]) || isThisRange(args[0]) && isNextRange(args[1])):
+					if rngEq {
+						return True
+					}
+					return False
+				case Named("lsm/compact.(KeyRange).IsEmpty")(call.Common()) && len(args) == 1 && isNextRange(args[0]):
+					return False
+				}
+				return Unknown
+			}
+			env := func() *SignEnv { return &SignEnv{Role: role, Signs: signs, Bool: boolHook, Depth: 1} }
+			reserved, released := false, false
+			for _, r := range reserves {
+				if env().Reaches(add, r) {
+					reserved = true
+				}
+			}
+			for _, r := range removes {
+				if env().Reaches(del, r) {
+					released = true
+				}
+			}
+			n += len(reserves) + len(removes)
+			desc := fmt.Sprintf("levels %s, ranges %s", map[bool]string{true: "equal", false: "different"}[lvlEq], map[bool]string{true: "equal", false: "different"}[rngEq])
+			if reserved && !released {
+				bad = append(bad, desc+": CompareAndAdd reserves NextRange but Delete never releases it (that part of the level stays under compaction for ever: L0 cannot drain, the write throttle is never lifted and writes wait in sendToWriteCh)")
+			}
+			if !reserved && released {
+				bad = append(bad, desc+": Delete releases a NextRange that CompareAndAdd did not reserve (keyRange not found: log.Fatal)")
+			}
+		}
+	}
+	k := key(del, "releases:NextRange<->reserved-in-CompareAndAdd")
+	if len(bad) > 0 {
+		c.Fail(rule, k, removes[0].Pos(), n+1, "%s", strings.Join(bad, "; "))
+	} else {
+		c.Pass(rule, k, removes[0].Pos(), n+1, "release and reservation of NextRange agree in the 3 decided cases")
+	}
+}
+
+// throttleErrorReportGroup (C37): utils.Throttle collects worker errors in errCh (capacity max)
+// and Finish drains it only after wg.Wait().  Do() does not bound the number of workers, so a
+// worker that reports its error with a blocking send waits for a reader that only comes after
+// the worker itself has finished: with more than max failing workers (subcompact starts one per
+// output table; a full disk fails them all) Finish, the compactor and DB.Close never return.
+// Necessary condition: every send on errCh is non-blocking (select with default), or the workers
+// in flight are bounded by a token channel acquired in Do and released in Done.
+func throttleErrorReportGroup(c *Ctx, rule string) {
+	c.Rule(rule, "every send on utils.Throttle.errCh is a non-blocking select case (a surplus error is dropped: Finish returns only the first one), unless Throttle.Do blocks on a token channel that Throttle.Done releases (workers in flight bounded by the channel capacity)")
+	isErrCh := func(v ssa.Value) bool { return isFieldLoad(v, "utils.Throttle", "errCh") }
+	chanField := func(v ssa.Value) string {
+		if u, ok := Unwrap(v).(*ssa.UnOp); ok && u.Op == token.MUL {
+			if o, f, ok := FieldOf(u.X); ok && o == "utils.Throttle" {
+				return f
+			}
+		}
+		return ""
+	}
+	// bounded in-flight workers: Do sends on a token channel, Done receives from it
+	bounded := false
+	if do, done := c.FnOpt("utils", "Throttle.Do"), c.FnOpt("utils", "Throttle.Done"); do != nil && done != nil {
+		tokens := map[string]bool{}
+		AllInstrs(do, false, func(in ssa.Instruction) {
+			if sd, ok := in.(*ssa.Send); ok {
+				if f := chanField(sd.Chan); f != "" && f != "errCh" {
+					tokens[f] = true
+				}
+			}
+		})
+		AllInstrs(done, true, func(in ssa.Instruction) {
+			if u, ok := in.(*ssa.UnOp); ok && u.Op == token.ARROW && tokens[chanField(u.X)] {
+				bounded = true
+			}
+		})
+	}
+	n := 0
+	for _, f := range c.P.ModFuncs {
+		if FuncPkgPath(f) != Module+"/utils" {
+			continue
+		}
+		AllInstrs(f, false, func(in ssa.Instruction) {
+			switch x := in.(type) {
+			case *ssa.Send:
+				if !isErrCh(x.Chan) {
+					return
+				}
+				n++
+				c.Touch(f)
+				c.Decide(bounded, rule, key(f, fmt.Sprintf("errCh-send[%d]#cannot-block", n)), x.Pos(), 2, "workers in flight are bounded by a token channel, the error channel has room for each", "a worker reports its error with a blocking send on errCh, which Finish drains only after wg.Wait(): with more failing workers than the channel's capacity the send never completes, wg.Done is never reached and Finish / the compactor / DB.Close wait for ever")
+			case *ssa.Select:
+				for _, st := range x.States {
+					if st.Dir == types.SendOnly && isErrCh(st.Chan) {
+						n++
+						c.Touch(f)
+						c.Decide(!x.Blocking || bounded, rule, key(f, fmt.Sprintf("errCh-send[%d]#cannot-block", n)), x.Pos(), 2, "non-blocking report (select with default)", "the select that reports a worker error on errCh has no default case: it blocks once the channel is full")
+					}
+				}
+			}
+		})
+	}
+	c.Floor(rule, n, 1, "sends on Throttle.errCh")
+}
+
+// levelReadLockGroup (C37): sync.RWMutex read locks must not be taken recursively: once a writer
+// queues between the two RLock calls the second one waits for the writer and the writer for the
+// first, and the level is dead for compactors, readers and Close.  compactDef.lockLevels holds the
+// read locks of thisLevel and nextLevel, which are the same level for every ingest-buffer and
+// max-level compaction.  (a) lockLevels/unlockLevels touch nextLevel's lock only when it is a
+// different level (sign evaluation over thisLevel == nextLevel); (b) a function that holds the
+// locks through lockLevels calls no levelHandler method on cd.thisLevel / cd.nextLevel that locks
+// its receiver again.
+func levelReadLockGroup(c *Ctx, rule string) {
+	c.Rule(rule, "lsm.compactDef.lockLevels / unlockLevels do not reach the RLock / RUnlock of nextLevel when nextLevel == thisLevel and reach it otherwise; between lockLevels and unlockLevels no method that (R)Locks its levelHandler receiver is called on cd.thisLevel or cd.nextLevel")
+	isLevelField := func(v ssa.Value, f string) bool { return isFieldLoad(v, "lsm.compactDef", f) }
+	role := func(v ssa.Value) string {
+		switch {
+		case isLevelField(v, "thisLevel"):
+			return "this"
+		case isLevelField(v, "nextLevel"):
+			return "next"
+		}
+		return ""
+	}
+	// receiver level of a (*sync.RWMutex) method call made through the embedded mutex
+	lockedLevel := func(ci ssa.CallInstruction) ssa.Value {
+		a := ci.Common().Args
+		if len(a) == 0 {
+			return nil
+		}
+		if fa, ok := Unwrap(a[0]).(*ssa.FieldAddr); ok {
+			return Unwrap(fa.X)
+		}
+		return nil
+	}
+	for _, spec := range []struct{ fn, op string }{{"compactDef.lockLevels", "RLock"}, {"compactDef.unlockLevels", "RUnlock"}} {
+		fn := c.Fn("lsm", spec.fn)
+		if fn == nil {
+			continue
+		}
+		var next []ssa.Instruction
+		for _, l := range Calls(fn, false, Named("(*sync.RWMutex)."+spec.op)) {
+			if lv := lockedLevel(l); lv != nil && isLevelField(lv, "nextLevel") {
+				next = append(next, l.(ssa.Instruction))
+			}
+		}
+		k := key(fn, "nextLevel."+spec.op+"#only-when-a-different-level")
+		if len(next) == 0 {
+			c.Fail(rule, k, fn.Pos(), 1, "%s no longer takes/releases nextLevel's lock at all", spec.fn)
+			continue
+		}
+		same, diff := false, true
+		for _, l := range next {
+			eq := map[string]int{}
+			SetSign(eq, "this", "next", 0)
+			if (&SignEnv{Role: role, Signs: eq, Depth: 1}).Reaches(fn, l) {
+				same = true
+			}
+			ne := map[string]int{}
+			SetSign(ne, "this", "next", -1)
+			if !(&SignEnv{Role: role, Signs: ne, Depth: 1}).Reaches(fn, l) {
+				diff = false
+			}
+		}
+		switch {
+		case same:
+			c.Fail(rule, k, next[0].Pos(), 3, "%s calls %s on nextLevel also when it is the same level as thisLevel (every ingest-buffer and max-level compaction): the level's RWMutex is read-locked twice by one goroutine, and a writer arriving in between (moveToIngest, replaceIngestTables) deadlocks the level for compactors, readers and Close", spec.fn, spec.op)
+		case !diff:
+			c.Fail(rule, k, next[0].Pos(), 3, "%s skips nextLevel's lock although it is a different level", spec.fn)
+		default:
+			c.Pass(rule, k, next[0].Pos(), 3, "nextLevel's lock is touched only when it is a different level")
+		}
+	}
+	ll := c.FnOpt("lsm", "compactDef.lockLevels")
+	if ll == nil {
+		return
+	}
+	n := 0
+	for _, cs := range c.P.CallersOf(ll) {
+		if cs.Site == nil {
+			continue
+		}
+		f := Root(cs.Caller)
+		c.Touch(f)
+		for _, call := range Calls(f, true, func(*ssa.CallCommon) bool { return true }) {
+			cal := call.Common().StaticCallee()
+			if cal == nil || cal.Blocks == nil || cal.Signature.Recv() == nil || len(call.Common().Args) == 0 || !strings.HasPrefix(FuncName(cal), "(*lsm.levelHandler).") {
+				continue
+			}
+			recv := Unwrap(call.Common().Args[0])
+			if !isLevelField(recv, "thisLevel") && !isLevelField(recv, "nextLevel") {
+				continue
+			}
+			n++
+			relock := false
+			for _, l := range Calls(cal, false, Named("(*sync.RWMutex).RLock", "(*sync.RWMutex).Lock")) {
+				if lv := lockedLevel(l); lv != nil && len(cal.Params) > 0 && lv == cal.Params[0] {
+					relock = true
+				}
+			}
+			c.Decide(!relock, rule, key(f, fmt.Sprintf("holds-level-locks#calls:%s", cal.Name())), call.Pos(), 2, "the method does not lock the level again", cal.Name()+" read-locks its level although "+FuncName(f)+" already holds that level's read lock through lockLevels: a recursive RLock deadlocks as soon as a writer queues in between")
+		}
+	}
+	c.Floor(rule, n, 1, "levelHandler method calls on cd.thisLevel/cd.nextLevel under lockLevels")
+}
+
+// memTableSizePositiveGroup (C37): the LSM write path (LSM.Set / LSM.SetBatch) rotates the active
+// memtable until the write fits `MemTableSize - walSize`.  With MemTableSize <= 0 nothing ever
+// fits: the commit worker rotates for ever, the first write never returns and Close waits behind
+// it.  Options.MemTableSize <= 0 means "not set" everywhere else, so the value that reaches the
+// LSM has to be normalised first: NoKV.Open (or lsm.NewLSM) tests it for <= 0 and replaces it
+// by a positive size before the LSM is built.
+func memTableSizePositiveGroup(c *Ctx, rule string) {
+	c.Rule(rule, "before lsm.NewLSM is called NoKV.Open tests Options.MemTableSize for <= 0 and stores a positive constant in its place on that edge (in the options themselves or in the local handed to lsm.Options.MemTableSize), or lsm.NewLSM does the same with its own options")
+	positive := func(v ssa.Value) bool { k, ok := ConstInt(Unwrap(v)); return ok && k > 0 }
+	normalises := func(fn *ssa.Function, owner string, before ssa.Instruction) bool {
+		for _, b := range fn.Blocks {
+			ifi := ifOf(b)
+			if ifi == nil {
+				continue
+			}
+			bo, ok := ifi.Cond.(*ssa.BinOp)
+			if !ok || !isFieldLoad(bo.X, owner, "MemTableSize") {
+				continue
+			}
+			k, isC := ConstInt(Unwrap(bo.Y))
+			if !isC || !(bo.Op == token.LEQ && k == 0 || bo.Op == token.LSS && k == 1) {
+				continue
+			}
+			if before != nil && !b.Dominates(before.Block()) {
+				continue
+			}
+			edge := [2]*ssa.BasicBlock{b, b.Succs[0]}
+			// (1) in place: a positive constant stored into the field on the `<= 0` edge
+			for _, st := range fieldStoresIn(fn, false, owner, "MemTableSize") {
+				if sv, ok := st.(*ssa.Store); ok && positive(sv.Val) && EdgeDominates(edge[0], edge[1], sv.Block()) {
+					return true
+				}
+			}
+			// (2) a local: a phi joining the field with a positive constant from that edge,
+			// stored into lsm.Options.MemTableSize
+			for _, st := range fieldStoresIn(fn, false, "lsm.Options", "MemTableSize") {
+				sv, ok := st.(*ssa.Store)
+				if !ok {
+					continue
+				}
+				if phi, ok := Unwrap(sv.Val).(*ssa.Phi); ok {
+					for i, e := range phi.Edges {
+						if positive(e) && (phi.Block().Preds[i] == edge[1] || EdgeDominates(edge[0], edge[1], phi.Block().Preds[i])) {
+							return true
+						}
+					}
+				}
+			}
+		}
+		return false
+	}
+	open := c.Fn("", "Open")
+	if open == nil {
+		return
+	}
+	nl := Calls(open, false, Named("lsm.NewLSM"))
+	c.Floor(rule, len(nl), 1, "lsm.NewLSM calls in Open")
+	ok := false
+	for _, call := range nl {
+		if normalises(open, "NoKV.Options", call.(ssa.Instruction)) {
+			ok = true
+		}
+	}
+	if !ok {
+		if nf := c.FnOpt("lsm", "NewLSM"); nf != nil && normalises(nf, "lsm.Options", nil) {
+			ok = true
+		}
+	}
+	c.Decide(ok, rule, key(open, "MemTableSize<=0→default-before-NewLSM"), open.Pos(), 3, "an unset memtable size is replaced by a positive one before the LSM is built", "Options.MemTableSize is handed to the LSM as it is: with the zero value (documented as `not set` by every other user of the field) the LSM write path rotates memtables for ever, the first write never returns and Close hangs behind the commit worker")
+}
